@@ -500,3 +500,60 @@ func (g *LibGen) History(nSteps int) []Op {
 	}
 	return ops
 }
+
+// genSpanBatch (C02): a coarser ring barely longer than the finer one, and sparse batches
+// holding only the oldest point the finest archive still takes and the newest — their coarser
+// intervals lie a whole coarser retention apart, i.e. in the same ring slot, with nothing
+// between them in the work-list.  Both intervals must be recomputed, at every phase of the
+// clock within a coarser step.
+func genSpanBatch(r *Rng, prop string) []Op {
+	s0 := r.PickInt([]int{1, 1, 2, 5})
+	ratio := r.PickInt([]int{2, 3, 4, 5})
+	s1 := s0 * ratio
+	n1 := 2 + r.Intn(4)
+	// ret1 - ret0 < s1: the finer archive reaches back into the oldest coarser interval
+	ret1 := s1 * n1
+	n0 := (ret1 - 1) / s0
+	if n0 < ratio {
+		n0 = ratio
+		n1 = n0*s0/s1 + 1
+		ret1 = s1 * n1
+	}
+	lay := Layout{[]int{s0, s1}, []int{n0, n1}}
+	if r.Chance(1, 3) {
+		// a third level on top, barely longer again
+		s2 := s1 * r.PickInt([]int{2, 3})
+		n2 := ret1/s2 + 1
+		if n1 < s2/s1 {
+			n1 = s2 / s1
+			lay.Ns[1] = n1
+			ret1 = s1 * n1
+			n2 = ret1/s2 + 1
+		}
+		lay = Layout{[]int{s0, s1, s2}, []int{lay.Ns[0], n1, n2}}
+	}
+	agg := 1 + r.Intn(6)
+	xff := math.Float32bits([]float32{0, 0, 0.1, 0.5}[r.Intn(4)])
+	now := 1600000000 + r.Intn(100000000)
+	now -= now % (s1 * 6)
+	sRaw := prop == "C02" || prop == "C03"
+	ops := []Op{{"reset", false}, {fmt.Sprintf("create %s %d %08x", lay, agg, xff), true}}
+	ret0 := lay.Ret(0)
+	for phase := 0; phase < s1 && phase < 10; phase++ {
+		n := now + phase
+		old := n - ret0 + 1
+		pts := []string{fmt.Sprintf("%d:%s", old, genVal(r, false)), fmt.Sprintf("%d:%s", n, genVal(r, false))}
+		if r.Chance(1, 3) {
+			pts = append(pts, fmt.Sprintf("%d:%s", old+s0, genVal(r, false)))
+		}
+		ops = append(ops, Op{fmt.Sprintf("updmany -1 %d %s", n, strings.Join(pts, ",")), prop == "C02"})
+		for k := 1; k < lay.K(); k++ {
+			ops = append(ops, Op{fmt.Sprintf("raw %d", k), sRaw})
+		}
+		ops = append(ops, Op{fmt.Sprintf("fetch 1 %d %d %d", n-ret1+1, n, n), true})
+		if r.Chance(1, 3) {
+			now += lay.MaxRet() + r.Intn(s1)
+		}
+	}
+	return ops
+}
